@@ -193,23 +193,67 @@ fn svd_from_vectors<const D: usize>(
     center: Option<Point<f64, D>>,
 ) -> SvdBasis<D> {
     let n = vecs.len();
-    let mut matrix = DMatrix::zeros(n, D);
+    let mut matrix = DMatrix::<f64>::zeros(n, D);
     for (i, p) in vecs.iter().enumerate() {
         for j in 0..D {
             matrix[(i, j)] = p[j];
         }
     }
 
-    let result = matrix.svd(false, true);
-    let v_t = result.v_t.unwrap();
+    // The singular values and right singular vectors are computed with a one-sided Jacobi
+    // (Hestenes) iteration: pairs of columns are rotated until all columns are mutually
+    // orthogonal, at which point the column norms are the singular values and the accumulated
+    // rotations are the right singular vectors.  The general purpose SVD of the tall n x D
+    // matrix was observed to return singular values wrong by several percent (occasionally far
+    // more) for some inputs, for instance collinear or coplanar points in a general pose.
+    let mut v = DMatrix::<f64>::identity(D, D);
+    for _sweep in 0..64 {
+        let mut rotated = false;
+        for p in 0..D {
+            for q in (p + 1)..D {
+                let (mut alpha, mut beta, mut gamma) = (0.0, 0.0, 0.0);
+                for i in 0..n {
+                    alpha += matrix[(i, p)] * matrix[(i, p)];
+                    beta += matrix[(i, q)] * matrix[(i, q)];
+                    gamma += matrix[(i, p)] * matrix[(i, q)];
+                }
+                if gamma == 0.0 || gamma.abs() <= 1e-16 * (alpha * beta).sqrt() {
+                    continue;
+                }
+                rotated = true;
+                let zeta = (beta - alpha) / (2.0 * gamma);
+                let t = zeta.signum() / (zeta.abs() + (1.0 + zeta * zeta).sqrt());
+                let c = 1.0 / (1.0 + t * t).sqrt();
+                let s = c * t;
+                for i in 0..n {
+                    let (a_p, a_q) = (matrix[(i, p)], matrix[(i, q)]);
+                    matrix[(i, p)] = c * a_p - s * a_q;
+                    matrix[(i, q)] = s * a_p + c * a_q;
+                }
+                for i in 0..D {
+                    let (v_p, v_q) = (v[(i, p)], v[(i, q)]);
+                    v[(i, p)] = c * v_p - s * v_q;
+                    v[(i, q)] = s * v_p + c * v_q;
+                }
+            }
+        }
+        if !rotated {
+            break;
+        }
+    }
+
+    // Order the axes by non-increasing singular value
+    let norms: Vec<f64> = (0..D).map(|j| matrix.column(j).norm()).collect();
+    let mut order: Vec<usize> = (0..D).collect();
+    order.sort_by(|a, b| norms[*b].partial_cmp(&norms[*a]).unwrap());
 
     let mut basis = [SVector::<f64, D>::zeros(); D];
     let mut scales = [0.0; D];
     for i in 0..D {
         for j in 0..D {
-            basis[i][j] = v_t[(i, j)];
+            basis[i][j] = v[(j, order[i])];
         }
-        scales[i] = result.singular_values[i];
+        scales[i] = norms[order[i]];
     }
 
     SvdBasis {
